@@ -57,7 +57,10 @@ TStep ==
         IF IsFile(FileOfEvent(E)) /\ CanRetPlToTfm(FileOfEvent(E))
         THEN RetPlToTfm(FileOfEvent(E)) /\ UNCHANGED skip
         ELSE Reject("unreadable-output",
-                    [want |-> "Ok", got |-> IF IsFile(FileOfEvent(E)) THEN Want(FileOfEvent(E)) ELSE "malformed"])
+                    [want |-> "Ok and len = 4*lf",
+                     got |-> IF ~IsFile(FileOfEvent(E)) THEN "malformed"
+                             ELSE IF Want(FileOfEvent(E)) = "Ok" THEN "Ok, but len # 4*lf"
+                             ELSE Want(FileOfEvent(E))])
      ELSE Reject(E.ev, <<>>)      \* panic in pl_to_tfm, hang, crash, anything unknown
 
 TSpec == TInit /\ [][TStep]_tvars
